@@ -87,6 +87,10 @@ package model
 //@   ensures forall i int :: 0 <= i && i < len(v.Values) ==> has(v.values, v.Values[i])
 //@   loop 1 invariant forall s string :: has(v.values, s) ==> 0 <= v.values[s] && v.values[s] <= rangeindex
 //@   loop 1 invariant forall i int :: 0 <= i && i <= rangeindex ==> has(v.values, v.Values[i])
+// -- extension -- the index is an INVERSE of Values: the entry stored under a text is a position that holds
+// exactly that text (token-level round trip: Values[Encode(s)] == s); with duplicates the last one wins
+//@   ensures forall s string :: has(v.values, s) ==> v.Values[v.values[s]] == s
+//@   loop 1 invariant forall s string :: has(v.values, s) ==> v.Values[v.values[s]] == s
 
 // sync.Once glue (explicit assumption, listed in the evidence): after valuesOnce.Do(f)
 // the postcondition of f holds - f = (*Vocabulary).Encode$1 ran now or earlier and is
@@ -96,6 +100,10 @@ package model
 //@   assume-at after call Do #1 : forall i int :: 0 <= i && i < len(v.Values) ==> has(v.values, v.Values[i])
 //@   ensures (exists i int :: 0 <= i && i < len(v.Values) && s == v.Values[i]) ==> result >= 0   -- every token text is found (so special tokens get real ids)
 //@   ensures result == -1 || (0 <= result && result < len(v.Values))
+// -- extension -- token-level round trip: what Encode returns for s decodes (Vocabulary.Decode = Values[id]) to s
+// (same sync.Once glue as above for the third proved postcondition of the closure)
+//@   assume-at after call Do #1 : forall s string :: has(v.values, s) ==> v.Values[v.values[s]] == s
+//@   ensures result >= 0 ==> v.Values[result] == s
 
 //@ func (*Vocabulary).Decode
 //@   modifies nothing
@@ -226,6 +234,12 @@ package model
 // BOS / EOS are added only on request, around (not instead of) the ids of the text
 //@   assert-at call append #13 : addSpecial && len(arg0) == 1 && arg0[0] == spm.vocab.BOS && len(arg1) == len(ids)
 //@   assert-at call append #14 : addSpecial && len(arg1) == 1 && arg1[0] == spm.vocab.EOS && len(arg0) == len(ids)
+// -- extension -- container/heap works on the *queue only (frames of the queue methods are proved, see
+// (queue).Swap etc.); what heap.Pop returns is what (*queue).Pop returned: a *candidate; only *candidate values
+// are pushed
+//@   assert-at call heap.Push #1 : tagis(arg1, "*candidate")
+//@   assert-at call heap.Push #2 : tagis(arg1, "*candidate")
+//@   assert-at call heap.Push #3 : tagis(arg1, "*candidate")
 
 //@ func (SentencePieceModel).Decode
 //@   requires forall k int :: 0 <= k && k < len(ids) ==> 0 <= ids[k] && ids[k] < len(spm.vocab.Values)
@@ -237,3 +251,54 @@ package model
 //@   assert-at call ParseUint #1 : len(data) == 6 && shasprefix(data, "<0x") && shassuffix(data, ">") && arg0 == data[1:5] && arg1 == 0 && arg2 == 8
 //@   assert-at call WriteByte #1 : arg1 == byteVal % 256
 //@   assert-at call WriteString #1 : arg1 == data && !(len(data) == 6 && shasprefix(data, "<0x") && shassuffix(data, ">"))
+
+// ---- extension: merge-rank table (Vocabulary.Merge), built once like the value index ----
+// rank of a pair = its position in Merges (the text "left right"), -1 when the pair is not a merge
+//@ func (*Vocabulary).Merge$1
+//@   requires len(v.Merges) <= 2147483647
+//@   ensures forall s string :: has(v.merge, s) ==> 0 <= v.merge[s] && v.merge[s] < len(v.Merges) && v.Merges[v.merge[s]] == s
+//@   ensures forall i int :: 0 <= i && i < len(v.Merges) ==> has(v.merge, v.Merges[i])
+//@   loop 1 invariant forall s string :: has(v.merge, s) ==> 0 <= v.merge[s] && v.merge[s] <= rangeindex && v.Merges[v.merge[s]] == s
+//@   loop 1 invariant forall i int :: 0 <= i && i <= rangeindex ==> has(v.merge, v.Merges[i])
+//@ func (*Vocabulary).Merge
+//@   assume-at after call Do #1 : forall s string :: has(v.merge, s) ==> 0 <= v.merge[s] && v.merge[s] < len(v.Merges) && v.Merges[v.merge[s]] == s
+//@   assume-at after call Do #1 : forall i int :: 0 <= i && i < len(v.Merges) ==> has(v.merge, v.Merges[i])
+//@   ensures result == -1 || (0 <= result && result < len(v.Merges) && v.Merges[result] == left + " " + right)
+//@   ensures (exists i int :: 0 <= i && i < len(v.Merges) && v.Merges[i] == left + " " + right) ==> result >= 0
+
+// ---- extension: the SentencePiece priority queue (heap.Interface on []*candidate) ----
+// container/heap calls these with indices inside the queue
+//@ func (queue).Len
+//@   modifies nothing
+//@   ensures result == len(q)
+// order: higher score first, ties broken by the smaller left position (a MIN-heap under Less keeps the best
+// candidate at index 0)
+//@ func (queue).Less
+//@   requires 0 <= i && i < len(q) && 0 <= j && j < len(q)
+//@   modifies nothing
+//@   ensures result <==> (q[i].score > q[j].score) || (q[i].score == q[j].score && q[i].a < q[j].a)
+//@ func (queue).Swap
+//@   requires 0 <= i && i < len(q) && 0 <= j && j < len(q)
+//@   modifies q[i], q[j]
+//@   ensures q[i] == old(q[j]) && q[j] == old(q[i])
+//@   ensures forall k int :: 0 <= k && k < len(q) && k != i && k != j ==> q[k] == old(q[k])
+//@ func (*queue).Push
+//@   requires tagis(x, "*candidate")
+//@   ensures len(*q) == old(len(*q)) + 1
+//@   ensures forall k int :: 0 <= k && k < old(len(*q)) ==> (*q)[k] == old((*q)[k])
+//@ func (*queue).Pop
+//@   requires len(*q) >= 1
+//@   ensures len(*q) == old(len(*q)) - 1 && tagis(result, "*candidate")
+//@   ensures forall k int :: 0 <= k && k < len(*q) ==> (*q)[k] == old((*q)[k])
+
+// container/heap on a *queue (trusted library contracts): the calls work on the queue behind h through its
+// methods only - Len/Less read, Swap exchanges two slots, Push/Pop append/cut (frames proved above) - and
+// heap.Pop returns what h.Pop() returned, for a *queue a *candidate (proved on (*queue).Pop; (*queue).Push
+// accepts nothing else). The order of the elements inside the queue is not read by any clause.
+//@ extern func container/heap.Init
+//@   modifies boxed(h)
+//@ extern func container/heap.Push
+//@   modifies boxed(h)
+//@ extern func container/heap.Pop
+//@   modifies boxed(h)
+//@   ensures tagis(result, "*candidate")
